@@ -158,6 +158,8 @@ let main_seq file do_abs =
   let alloc = ref (0, 0, true) in
   let prev_free = ref (0, 0) in
   let kinodes = ref [] and kdirs = ref [] in
+  let ltrace = ref [] in
+  let ntxn_total = ref 0 and nacq_total = ref 0 in
   let nsteps = ref 0 in
   (try
      while true do
@@ -182,6 +184,7 @@ let main_seq file do_abs =
          let b = if d = "z" then zeros (n_of_int 4096) else bytes_of_hex d in
          disk := disk_set !disk (n_of_string a) b
        | "A" :: fb :: fi :: q :: _ -> alloc := (int_of_string fb, int_of_string fi, q = "1")
+       | "L" :: rest -> ltrace := rest
        | "K" :: i :: enc :: _ -> kinodes := (n_of_string i, bytes_of_hex enc) :: !kinodes
        | "KD" :: i :: _ :: n :: rest ->
          let rec ents k l acc = if k = 0 then acc else match l with
@@ -241,15 +244,54 @@ let main_seq file do_abs =
                       else if aok then "" else Printf.sprintf " alloc=mem(%d,%d)/disk(%d,%d)" fb fi disk_fb disk_fi) in
              s, List.length mm, List.length ar.r_errs, aok
            end else "", 0, 0, true in
-         Printf.printf "S %s %s REPLY=%d NABS=%d NWF=%d ALLOC=%d%s%s\n" !callid !callname
-           (if reply_ok then 1 else 0) nabs nwf (if alloc_ok then 1 else 0) detail abs_s;
+         (* R-trace: lock/commit discipline of every transaction of this RPC *)
+         let trace_bad =
+           if !ltrace = [] || !ltrace = ["-"] then [] else begin
+             let tbl = Hashtbl.create 4 in
+             let order = ref [] in
+             List.iter (fun tok ->
+                 if String.length tok >= 2 then begin
+                   let k = tok.[0] in
+                   let body = String.sub tok 1 (String.length tok - 1) in
+                   let (t, a) = match split_on ':' body with [t; a] -> (t, a) | [t] -> (t, "0") | _ -> ("0", "0") in
+                   let ev = match k with
+                     | 'a' -> Some (TAcq (n_of_string a)) | 'r' -> Some (TRel (n_of_string a))
+                     | 'c' -> Some (TCommit (a = "1")) | 'd' -> Some (TCommitted (a = "1"))
+                     | 'x' -> Some TAbort | 'f' -> Some TFlush | 'g' -> Some (TFlushed (a = "1"))
+                     | 'n' -> Some (TFresh (n_of_string a)) | _ -> None in
+                   (match ev with
+                    | Some e ->
+                      if not (Hashtbl.mem tbl t) then order := t :: !order;
+                      Hashtbl.replace tbl t (e :: (try Hashtbl.find tbl t with Not_found -> []))
+                    | None -> ())
+                 end) !ltrace;
+             let txns = List.rev_map (fun t -> List.rev (Hashtbl.find tbl t)) !order in
+             ntxn_total := !ntxn_total + List.length txns;
+             let bad = ref [] in
+             List.iteri (fun i evs ->
+                 nacq_total := !nacq_total + List.length (List.filter (function TAcq _ -> true | _ -> false) evs);
+                 if not (asc_f [] [] evs) then bad := Printf.sprintf "lock-order(txn%d:%s)" i
+                       (String.concat ">" (List.filter_map (function TAcq i -> Some (string_of_int (int_of_n i)) | _ -> None) evs)) :: !bad;
+                 if not (commit_phase_b N0 evs) then bad := Printf.sprintf "commit-phase(txn%d)" i :: !bad;
+                 if not (balanced_b [] evs) then bad := Printf.sprintf "lock-leak(txn%d)" i :: !bad;
+                 (* every commit of a procedure other than an UNSTABLE write waits for the journal *)
+                 let unwaited = List.exists (fun w -> not w) (waits evs) in
+                 let is_unstable_write = (!callname = "write") && (match !oreply with Some (OWritten (N0, _, N0, _)) -> true | Some (OWritten _) -> false | _ -> true) in
+                 if unwaited && not is_unstable_write then bad := Printf.sprintf "unwaited-commit(txn%d)" i :: !bad) txns;
+             if List.length txns > 64 then bad := Printf.sprintf "retries(%d)" (List.length txns) :: !bad;
+             !bad
+           end in
+         ltrace := [];
+         Printf.printf "S %s %s REPLY=%d NABS=%d NWF=%d ALLOC=%d%s%s%s\n" !callid !callname
+           (if reply_ok then 1 else 0) nabs nwf (if alloc_ok then 1 else 0) detail abs_s
+           (if trace_bad = [] then "" else " trace=" ^ String.concat "," trace_bad);
          prev_free := (fb, fi);
          call := None; oreply := None; callname := "init"; callid := "0"
        | _ -> ()
      done
    with End_of_file -> ());
   let vs = List.sort_uniq compare !verfs in
-  Printf.printf "DONE steps=%d verfs=%s\n" !nsteps (String.concat "," vs)
+  Printf.printf "DONE steps=%d verfs=%s txns=%d acquires=%d\n" !nsteps (String.concat "," vs) !ntxn_total !nacq_total
 
 
 (* ---------- C15: fresh images of many sizes against the generated layout + mkfs model ---------- *)
